@@ -61,6 +61,28 @@ func c06inputs(c *Ctx) []c06input {
 		b, _ := hex.DecodeString(h)
 		add("regression", b)
 	}
+	// every input of one and of two bytes, and every three-byte input that starts like a tag, an array
+	// head or a byte-string head (a decoder that peels a prefix must still check what is left)
+	for a := 0; a < 256; a++ {
+		add("exhaustive-1-byte", []byte{byte(a)})
+		for b := 0; b < 256; b++ {
+			add("exhaustive-2-bytes", []byte{byte(a), byte(b)})
+		}
+	}
+	for _, pre := range [][]byte{{0xd9, 0xd9}, {0xd8, 0x62}, {0xd8, 0x12}, {0xd2, 0x84}, {0xd2, 0x83}, {0x84, 0x40}, {0x83, 0x40}, {0xa1, 0x01}, {0x58, 0x01}, {0x9f, 0xff}, {0xbf, 0xff}, {0xc0, 0x60}, {0xd9, 0x00}, {0xda, 0x00}, {0xdb, 0x00}} {
+		for b := 0; b < 256; b++ {
+			add("exhaustive-3-bytes-after-prefix", []byte{pre[0], pre[1], byte(b)})
+		}
+	}
+	// the self-described-CBOR tag (55799) alone, repeated, and in front of valid encodings of every kind
+	for _, h := range []string{"d9d9f7", "d9d9f7d9d9f7", "d9d9f7d2", "d9d9f7d284", "d9d9f784", "d9d9f783", "d9d9f7a0", "d9d9f740", "d9d9f7d9d9f7d9d9f7", "d9d9f7d862", "d2d9d9f7"} {
+		b, _ := hex.DecodeString(h)
+		add("self-described-tag", b)
+	}
+	for _, item := range gen.ValidCorpus(r.Sub(7), 60, 20) {
+		add("self-described-tag", append([]byte{0xd9, 0xd9, 0xf7}, item.Bytes...))
+		add("self-described-tag", append([]byte{0xd9, 0xd9, 0xf7, 0xd9, 0xd9, 0xf7}, item.Bytes...))
+	}
 	for n := 0; n < c.N(4000, 100000); n++ {
 		add("random", r.Bytes(1+r.Intn(60)))
 	}
